@@ -158,7 +158,7 @@ func (c *Ctx) farith(fr *Frame, op string, x, y *Term) *Term {
 	if x.isC && y.isC {
 		return c.tb.farith(op, x, y)
 	}
-	if c.w.cfg.FloatMode == "abstract" {
+	if c.w.cfg.FloatMode == "abstract" && (op == "fp.mul" || op == "fp.div") {
 		return c.absFloat(op, x, y)
 	}
 	return c.tb.farith(op, x, y)
